@@ -230,6 +230,7 @@ func c07Schedule(c *Ctx) {
 				cl := mc.Fn.(*ssa.Function)
 				cps := c.pathsO("R-C07-3", cl, an.PathOpts{})
 				okWorker = len(cps) > 0
+				var ipBinding ssa.Value
 				for _, cp := range cps {
 					sw := callsOnPath(cp, func(cc *ssa.CallCommon) bool { return an.CallIs(cc, PkgCorerad, "Advertiser", "sendWorker") })
 					if len(sw) != 1 {
@@ -237,7 +238,18 @@ func c07Schedule(c *Ctx) {
 						continue
 					}
 					ip := cp.Of(sw[0].Common().Args[2])
-					// the closure's ip is this iteration's received value
+					// the closure's ip is this iteration's received value: the captured variable,
+					// read in the scheduling path's own frame at the closure's creation
+					if ld, isLd := sw[0].Common().Args[2].(*ssa.UnOp); isLd && ld.Op == token.MUL {
+						if fv, isFV := ld.X.(*ssa.FreeVar); isFV {
+							for bi, v := range cl.FreeVars {
+								if v == fv && bi < len(mc.Bindings) {
+									ip = p.Load(mc.Bindings[bi], mc)
+									ipBinding = mc.Bindings[bi]
+								}
+							}
+						}
+					}
 					if !(ip.Op == an.OpRecv && strings.Contains(ip.String(), "ipC")) {
 						okWorker = false
 					}
@@ -258,8 +270,8 @@ func c07Schedule(c *Ctx) {
 					}
 				}
 				// per-iteration variable: the captured ip alloc lives inside the loop
-				for bi, bnd := range mc.Bindings {
-					if al, ok := bnd.(*ssa.Alloc); ok && cl.FreeVars[bi].Name() == "ip" {
+				for _, bnd := range mc.Bindings {
+					if al, ok := bnd.(*ssa.Alloc); ok && bnd == ipBinding && al.Parent() == sch {
 						hdr := p.CutTo
 						if !hdr.Dominates(al.Block()) {
 							okWorker = false
